@@ -475,14 +475,23 @@ def loop (brk : Bool) : St → List Str → Except Err St
       let st' := { st with table := appendRow st.table values }
       if brk then .ok st' else loop brk st' rest
 
-/-- one column: `channel[(j, 0)] = conversion_function(value)` -/
-def convertColumn (c : Chan) (col : List Str) : Except Err (List Value) :=
-  col.mapM fun tok =>
-    match convert (convKind c.name c.units) tok with
+/-- `channel[(j, 0)] = conversion_function(value)` for one cell -/
+def convertCell (c : Chan) (tok : Str) : Except Err Value :=
+  match convert (convKind c.name c.units) tok with
+  | .error e => .error e
+  | .ok v => match v with
+    | .float _ => .ok v
+    | _ => if c.obj then .ok v else .error .typeError     -- a date/time object cannot go into a float64 array
+
+/-- one column: `for j, value in enumerate(column):` -/
+def convertColumn (c : Chan) : List Str → Except Err (List Value)
+  | [] => .ok []
+  | tok :: rest =>
+    match convertCell c tok with
     | .error e => .error e
-    | .ok v => match v with
-      | .float _ => .ok v
-      | _ => if c.obj then .ok v else .error .typeError     -- a date/time object cannot go into a float64 array
+    | .ok v => match convertColumn c rest with
+      | .error e => .error e
+      | .ok vs => .ok (v :: vs)
 
 def convertAll : List Chan → List (List Str) → Except Err (List (Chan × List Value))
   | c :: cs, col :: cols =>
